@@ -1,6 +1,46 @@
-/-! Driver entry for property C15 (stub: not implemented yet). -/
-namespace HeartwoodModel.Driver.C15
+import HeartwoodModel.Model.Wire
+import HeartwoodModel.Driver.Util
+/-! Driver entry for C15.
 
-def run (_args : List String) : String := "unimplemented"
+Case: `<message bytes hex> <onion set> <flag>` — `wire::deserialize::<Message>` on the bytes. `onion set`:
+the raw 35-byte Tor addresses of the input accepted by the real `OnionAddrV3::from_raw_bytes`. `flag`
+(`g` = the bytes were produced by `wire::serialize` from a constructed message) is for the harness oracle.
+
+Output: `ok <re-encoding> lossy=<->|p|a>` (`p`: a ping/pong padding byte was not zero; `a`: the user agent of
+a node announcement was missing or cut short and defaulted; the re-encoding is `!` when `wire::serialize`
+would panic), `incomplete` (EOF error), `invalid` (any other error), `panic:<site>`. -/
+namespace HeartwoodModel.Driver.C15
+open HeartwoodModel.Codec HeartwoodModel.Wire HeartwoodModel.Driver.Util
+
+def toBytes (l : List Nat) : Bytes := l.map UInt8.ofNat
+def ofBytes (b : Bytes) : List Nat := b.map UInt8.toNat
+
+/-- djb2 over the bytes, 32 bit. -/
+def hash (b : Bytes) : Nat := b.foldl (fun h x => (h * 33 + x.toNat) % 4294967296) 5381
+
+def short (b : Bytes) : String :=
+  if b.length ≤ 24 then toHex (ofBytes b) else s!"#{b.length}.{hash b}"
+
+def parseSet (s : String) : Option (List Bytes) :=
+  if s == "-" then some [] else ((splitOn s ',').mapM hexBytes?).map (·.map toBytes)
+
+def run (args : List String) : String :=
+  match args with
+  | [bytesS, onionS, _flag] =>
+    match hexBytes? bytesS, parseSet onionS with
+    | some bytes, some onions =>
+      let env : Env := ⟨fun raw => onions.contains raw⟩
+      match deserializeG env (toBytes bytes) with
+      | .ok (m, g) _ =>
+        let re := match m.serialize? with
+          | some b => short b
+          | none => "!"
+        let lossy := if g.padNonZero then "p" else if g.agentDefaulted then "a" else "-"
+        s!"ok {re} lossy={lossy}"
+      | .incomplete => "incomplete"
+      | .invalid => "invalid"
+      | .panic site => s!"panic:{site}"
+    | _, _ => "bad-op"
+  | _ => "bad-op"
 
 end HeartwoodModel.Driver.C15
